@@ -707,6 +707,22 @@ func forSpecials() []model.Stmt {
 		out = append(out, model.For{Init: &model.Assign{Name: "i", E: model.Ternary{C: c, A: lit(1), B: lit(4)}}, Cond: model.Ternary{C: model.Binary{Op: "<", L: i, R: lit(6)}, A: model.Lit{V: model.Bool(true)}, B: model.Lit{V: model.Bool(false)}},
 			Post: model.Assign{Name: "i", E: model.Ternary{C: c, A: model.Binary{Op: "+", L: i, R: lit(2)}, B: model.Binary{Op: "+", L: i, R: lit(1)}}}, Body: body})
 	}
+	// headers holding literals whose braces and brackets close next to each other
+	nestObj := func(k int64) model.Expr {
+		return model.ObjLit{Keys: []string{"n"}, Vals: []model.Expr{model.ObjLit{Keys: []string{"k"}, Vals: []model.Expr{lit(k)}}}}
+	}
+	ov := model.Var{Name: "o"}
+	onk := model.Dot{X: model.Dot{X: ov, Name: "n"}, Name: "k"}
+	out = append(out, model.Each{Var: "o", Arr: model.ArrLit{Elems: []model.Expr{nestObj(1), nestObj(2)}}, Body: []model.Stmt{model.Print{E: onk}, model.Text{S: ","}}})
+	out = append(out, model.Each{Var: "o", Arr: model.ArrLit{Elems: []model.Expr{model.ArrLit{Elems: []model.Expr{model.ArrLit{Elems: []model.Expr{lit(5)}}}}}}, Body: []model.Stmt{model.Print{E: model.Index{X: model.Index{X: ov, I: lit(0)}, I: lit(0)}}}})
+	out = append(out, model.For{Init: &model.Assign{Name: "o", E: nestObj(0)}, Cond: model.Binary{Op: "<", L: onk, R: lit(2)}, Post: model.Assign{Name: "o", E: model.ObjLit{Keys: []string{"n"}, Vals: []model.Expr{model.ObjLit{Keys: []string{"k"}, Vals: []model.Expr{model.Binary{Op: "+", L: onk, R: lit(1)}}}}}},
+		Body: []model.Stmt{model.Print{E: onk}, model.BreakIf{E: model.Binary{Op: "==", L: model.Dot{X: model.Dot{X: nestObj(1), Name: "n"}, Name: "k"}, R: lit(7)}}, model.Text{S: ";"}}})
+	// percent signs in the text and in the values of loop bodies and @else bodies
+	pct := model.ArrLit{Elems: []model.Expr{model.StrLit{S: "7%d"}, model.StrLit{S: "100%"}, model.StrLit{S: "%s%v%%"}}}
+	out = append(out, model.Each{Var: "v", Arr: pct, Body: []model.Stmt{model.Print{E: model.Var{Name: "v"}}, model.Text{S: "% of %s|"}}, Else: []model.Stmt{model.Text{S: "0%"}}})
+	out = append(out, model.Each{Var: "v", Arr: model.ArrLit{}, Body: []model.Stmt{model.Text{S: "x"}}, Else: []model.Stmt{model.Text{S: "none (0%) %d"}}})
+	out = append(out, model.For{Init: &model.Assign{Name: "i", E: lit(0)}, Cond: model.Binary{Op: "<", L: i, R: lit(2)}, Post: model.Print{E: model.Postfix{Op: "++", X: i}},
+		Body: []model.Stmt{model.Print{E: i}, model.Text{S: "0% %!v(MISSING) "}, model.If{Conds: []model.Expr{lit(1)}, Bodies: [][]model.Stmt{{model.Text{S: "%x"}}}}}, Else: []model.Stmt{model.Text{S: "%"}}})
 	// the source of an inner loop is a literal built, at some depth, from the variable of the outer loop
 	xv := model.Var{Name: "x"}
 	pv := model.Var{Name: "p"}
